@@ -21,7 +21,7 @@ def topo(ck, which):
             for ln in open(src):
                 if any('"e":"%s"' % k in ln for k in keep):
                     f.write(ln)
-        ck.trace(name, "Trace_Grid", "Trace.cfg", flt, nchunks=48,
+        ck.trace(name, "Trace_Grid", "Trace.cfg", flt, nchunks=16,
                  what="every cell of the model graph r<=%d" % (1 if q else 2))
     t2 = os.path.join(ck.tdir, "strata.ndjson")
     d = vlib.run_driver(drv, ["strata", ck.tier, ck.seed, t2])
@@ -32,7 +32,7 @@ def topo(ck, which):
         for ln in open(t2):
             if any('"e":"%s"' % k in ln for k in keep):
                 f.write(ln)
-    ck.trace("strata", "Trace_Grid", "Trace.cfg", flt, nchunks=48,
+    ck.trace("strata", "Trace_Grid", "Trace.cfg", flt, nchunks=16,
              what="pentagon disks, icosahedron-edge cells, random cells r=3..15; non-neighbour / cross-resolution pairs; "
                   "candidate words with every reserved value, wrong modes, mutations")
     ck.ev.assumptions += ["TLC 1.8 / JVM", "H3Grid.tla transcription + frozen tables", "ndjson encodings"]
@@ -42,3 +42,5 @@ def run(ck):
     ck.mc("H3Validity", "H3Validity_edge.cfg", what="isValidDirectedEdge == (mode 2, direction 1..6, not 1 on a pentagon, valid "
           "origin) for every 64-bit word (product automaton)", workers=vlib.NCPU, xmx="8g")
     topo(ck, "C10")
+    from props.c08 import geo_trace
+    geo_trace(ck, cells_rmax=1 if ck.quick else 2)       # directedEdgeToBoundary = shared stretch (reversed for the opposite edge), edgeLength*
